@@ -60,6 +60,15 @@ CHECKS = {
          "font (RLIMIT_FSIZE) must leave nothing partial."),
    note=TB + "strace is trusted to show all file-system calls of the compiler and its preprocessor child; concurrency is C13's subject.",
    design="4/C19"),
+ "C15": dict(
+   technique="Lean 4 theorems on the version ladder (constants regenerated from source) + strict decoding, LZ4 inflation, byte comparison and libgraphite2 shaping across the full option matrix of real builds",
+   text=("Proof: Grc.Ver.declared_version_conforms / version_ge_requested — for every requested version, option set and class-map size the version computed by the model of CalculateSilfVersion "
+         "(its thresholds re-extracted from OutputToFont.cpp on every run) is at least the format's minimum for compression (5.0), collision data (4.1), skip-passes attribute and long class "
+         "offsets (4.0); glat_gloc_switch_together. Tie: each generated program is built for {default,-v2..-v5}x{plain,-c}x{with/without -p} and {-d,-D,verbose}: every build must pass the strict "
+         "decoders (conformance to the layout of the version it declares), its declared Silf version must equal the Lean ladder, compressed Silf/Glat inflated by the Lean LZ4 decoder must equal "
+         "the plain tables byte for byte, debug/verbose builds must be byte-identical to the default, and all builds must shape 40-150 texts identically through libgraphite2."),
+   note=TB + "LZ4 decoder is an executable Lean definition (partial def), not a proved one; the LZ4-HC compressor is validated per output only. Collision passes are not generated here (C20).",
+   design="4/C15"),
  "C14": dict(
    technique="Lean 4 theorem (skip-bit soundness for all glyph strings and positions) + its hypothesis evaluated on the decoded *skipPasses* attributes of real output + differential shaping of default vs -p builds with libgraphite2",
    text=("Proof: Grc.PB.skip_sound — if every effective rule of a pass has an input item all of whose class members have the pass's skip bit cleared, then on every glyph string whose glyphs all "
